@@ -23,6 +23,7 @@ import (
 	"go/ast"
 	"go/token"
 	"regexp"
+	"sort"
 	"strings"
 )
 
@@ -471,7 +472,7 @@ func lkRemove(xs []string, n string) []string {
 	return out
 }
 
-func clientWrites(p *pkg, roots []string) (ws []fieldWrite, reached []string) {
+func clientAccesses(p *pkg, roots []string, kind string) (ws []fieldWrite, reached []string) {
 	seen := map[string]bool{}
 	wseen := map[string]bool{}
 	var walk func(fn string, ex, rd []string)
@@ -516,7 +517,7 @@ func clientWrites(p *pkg, roots []string) (ws []fieldWrite, reached []string) {
 					r = append(r, n)
 				case "RUnlock":
 					r = lkRemove(r, n)
-				case "Write":
+				case kind:
 					k := fn + "|" + n + "|" + strings.Join(e, ",") + "|" + strings.Join(r, ",")
 					if !wseen[k] {
 						wseen[k] = true
@@ -536,6 +537,205 @@ func clientWrites(p *pkg, roots []string) (ws []fieldWrite, reached []string) {
 	for _, r := range roots {
 		walk(r, nil, nil)
 	}
+	return
+}
+
+// ---- ownership of the *smtp.Client on the DialAndSend path (escape inventory) ----
+//
+// For DialAndSendWithContext and every method of Client it hands its smtp.Client to (transitively), every
+// occurrence of the variable holding the *smtp.Client (parameters of type *smtp.Client, locals defined
+// from c.DialToSMTPClientWithContext(...) or smtp.NewClient(...)) is classified by its syntactic context:
+//
+//	def:<callee>   defined from that call          param          parameter declaration
+//	call:<M>       receiver of the method call client.M(...)
+//	arg:c.<M>      argument of a direct call of Client method M (M is then analysed too)
+//	nilcmp         compared with nil              return         returned
+//	escape:<what>  anything else: assigned to a variable or field, argument of another function,
+//	               method value, captured by a function literal that is not deferred, used in a go statement
+//
+// Identification is by name inside one function body (no type checker): a shadowing declaration of the
+// same name would be treated as the same variable (conservative: it can only add uses).
+type varUse struct{ fn, use string }
+
+func isSMTPClientPtr(e ast.Expr) bool {
+	st, ok := e.(*ast.StarExpr)
+	if !ok {
+		return false
+	}
+	sel, ok := st.X.(*ast.SelectorExpr)
+	if !ok {
+		return false
+	}
+	id, ok := sel.X.(*ast.Ident)
+	return ok && id.Name == "smtp" && sel.Sel.Name == "Client"
+}
+
+func smtpClientVarUses(p *pkg, root string) (uses []varUse, analysed []string) {
+	done := map[string]bool{}
+	seenUse := map[string]bool{}
+	add := func(fn, u string) {
+		if !seenUse[fn+"|"+u] {
+			seenUse[fn+"|"+u] = true
+			uses = append(uses, varUse{fn, u})
+		}
+	}
+	var analyse func(fn string)
+	analyse = func(fn string) {
+		if done[fn] {
+			return
+		}
+		done[fn] = true
+		decl, ok := p.funcs[fn]
+		if !ok || decl.Body == nil {
+			add(fn, "escape:function-not-found")
+			return
+		}
+		analysed = append(analysed, fn)
+		recv := ""
+		if decl.Recv != nil && len(decl.Recv.List) > 0 && len(decl.Recv.List[0].Names) > 0 {
+			recv = decl.Recv.List[0].Names[0].Name
+		}
+		vars := map[string]bool{}
+		if decl.Type.Params != nil {
+			for _, f := range decl.Type.Params.List {
+				if isSMTPClientPtr(f.Type) {
+					for _, n := range f.Names {
+						vars[n.Name] = true
+						add(fn, "param")
+					}
+				}
+			}
+		}
+		// locals defined from the two constructors
+		ast.Inspect(decl.Body, func(n ast.Node) bool {
+			as, ok := n.(*ast.AssignStmt)
+			if !ok || len(as.Rhs) != 1 || len(as.Lhs) == 0 {
+				return true
+			}
+			call, ok := as.Rhs[0].(*ast.CallExpr)
+			if !ok {
+				return true
+			}
+			ft := p.src(call.Fun)
+			if ft == "smtp.NewClient" || ft == recv+".DialToSMTPClientWithContext" {
+				if id, ok := as.Lhs[0].(*ast.Ident); ok && id.Name != "_" {
+					vars[id.Name] = true
+				}
+			}
+			return true
+		})
+		var stack []ast.Node
+		ast.Inspect(decl, func(n ast.Node) bool {
+			if n == nil {
+				stack = stack[:len(stack)-1]
+				return true
+			}
+			stack = append(stack, n)
+			id, ok := n.(*ast.Ident)
+			if !ok || !vars[id.Name] || len(stack) < 2 {
+				return true
+			}
+			parent := stack[len(stack)-2]
+			var grand ast.Node
+			if len(stack) >= 3 {
+				grand = stack[len(stack)-3]
+			}
+			// closures and go statements on the way up
+			for i := len(stack) - 2; i >= 0; i-- {
+				switch t := stack[i].(type) {
+				case *ast.GoStmt:
+					add(fn, "escape:go-statement")
+				case *ast.FuncLit:
+					deferred := false
+					if i >= 2 {
+						if ce, ok := stack[i-1].(*ast.CallExpr); ok && ce.Fun == ast.Expr(t) {
+							if _, ok := stack[i-2].(*ast.DeferStmt); ok {
+								deferred = true
+							}
+						}
+					}
+					if !deferred {
+						add(fn, "escape:captured-by-closure")
+					}
+				}
+			}
+			switch pt := parent.(type) {
+			case *ast.Field:
+				// parameter declaration, recorded above
+			case *ast.SelectorExpr:
+				if pt.X == ast.Expr(id) {
+					if ce, ok := grand.(*ast.CallExpr); ok && ce.Fun == ast.Expr(pt) {
+						add(fn, "call:"+pt.Sel.Name)
+					} else {
+						add(fn, "escape:selector-"+pt.Sel.Name)
+					}
+				}
+			case *ast.CallExpr:
+				ft := p.src(pt.Fun)
+				isArg := false
+				for _, a := range pt.Args {
+					if a == ast.Expr(id) {
+						isArg = true
+					}
+				}
+				if !isArg {
+					break
+				}
+				if recv != "" && strings.HasPrefix(ft, recv+".") {
+					m := ft[len(recv)+1:]
+					if _, isMethod := p.funcs["Client."+m]; isMethod && !strings.Contains(m, ".") {
+						add(fn, "arg:c."+m)
+						analyse("Client." + m)
+						break
+					}
+				}
+				if fd, isFunc := p.funcs[ft]; isFunc && fd.Recv == nil { // package-level function of package mail
+					add(fn, "arg:"+ft)
+					analyse(ft)
+					break
+				}
+				add(fn, "escape:argument-of-"+ft)
+			case *ast.BinaryExpr:
+				other := pt.X
+				if pt.X == ast.Expr(id) {
+					other = pt.Y
+				}
+				if oid, ok := other.(*ast.Ident); ok && oid.Name == "nil" && (pt.Op == token.EQL || pt.Op == token.NEQ) {
+					add(fn, "nilcmp")
+				} else {
+					add(fn, "escape:operand")
+				}
+			case *ast.ReturnStmt:
+				add(fn, "return")
+			case *ast.AssignStmt:
+				onLhs := false
+				for _, l := range pt.Lhs {
+					if l == ast.Expr(id) {
+						onLhs = true
+					}
+				}
+				if onLhs && len(pt.Rhs) == 1 {
+					if ce, ok := pt.Rhs[0].(*ast.CallExpr); ok {
+						ft := p.src(ce.Fun)
+						if recv != "" && strings.HasPrefix(ft, recv+".") {
+							ft = "c." + ft[len(recv)+1:]
+						}
+						add(fn, "def:"+ft)
+						break
+					}
+				}
+				if onLhs {
+					add(fn, "escape:reassigned")
+				} else {
+					add(fn, "escape:assigned-to-"+p.src(pt.Lhs[0]))
+				}
+			default:
+				add(fn, fmt.Sprintf("escape:%T", parent))
+			}
+			return true
+		})
+	}
+	analyse(root)
 	return
 }
 
@@ -584,8 +784,53 @@ func init() {
 		}
 		roots := []string{"DialWithContext", "DialAndSendWithContext", "DialAndSend", "Send", "Close", "Reset",
 			"DialToSMTPClientWithContext", "SendWithSMTPClient", "CloseWithSMTPClient", "ResetWithSMTPClient"}
-		writes, reached := clientWrites(p, roots)
-		for _, w := range writes {
+		writes, reached := clientAccesses(p, roots, "Write")
+		// all methods of Client (sorted) as roots: which methods write which field under which lock
+		var allMethods []string
+		for name := range p.funcs {
+			if strings.HasPrefix(name, "Client.") {
+				allMethods = append(allMethods, name[len("Client."):])
+			}
+		}
+		sort.Strings(allMethods)
+		allWrites, _ := clientAccesses(p, allMethods, "Write")
+		scopeReads, _ := clientAccesses(p, roots, "Read")
+		ownerUses, ownerFns := smtpClientVarUses(p, "Client.DialAndSendWithContext")
+		{
+			u2, f2 := smtpClientVarUses(p, "Client.DialToSMTPClientWithContext")
+			ownerUses, ownerFns = append(ownerUses, u2...), append(ownerFns, f2...)
+		}
+		for _, u := range ownerUses {
+			em.ident(u.fn)
+			em.ident(u.use)
+		}
+		// package smtp: all field accesses of all methods of smtp.Client with the lockset (roots = all methods)
+		var smtpMethods []string
+		for name := range sp.funcs {
+			if strings.HasPrefix(name, "Client.") {
+				smtpMethods = append(smtpMethods, name[len("Client."):])
+			}
+		}
+		sort.Strings(smtpMethods)
+		smtpReads, _ := clientAccesses(sp, smtpMethods, "Read")
+		smtpWrites, _ := clientAccesses(sp, smtpMethods, "Write")
+		smtpAcc := append(append([]fieldWrite(nil), smtpReads...), smtpWrites...)
+		for i := range smtpAcc {
+			smtpAcc[i].fn = "smtp:" + smtpAcc[i].fn
+			smtpAcc[i].field = "smtp:" + smtpAcc[i].field
+			for j := range smtpAcc[i].ex {
+				smtpAcc[i].ex[j] = "smtp:" + smtpAcc[i].ex[j]
+			}
+			for j := range smtpAcc[i].rd {
+				smtpAcc[i].rd[j] = "smtp:" + smtpAcc[i].rd[j]
+			}
+			em.ident("Client." + smtpAcc[i].fn)
+			em.ident(smtpAcc[i].field)
+			for _, x := range append(append([]string(nil), smtpAcc[i].ex...), smtpAcc[i].rd...) {
+				em.ident(x)
+			}
+		}
+		for _, w := range append(append(append([]fieldWrite(nil), writes...), allWrites...), scopeReads...) {
 			em.ident("Client." + w.fn)
 			em.ident(w.field)
 			for _, x := range append(append([]string(nil), w.ex...), w.rd...) {
@@ -618,22 +863,40 @@ func init() {
 			}
 			emit("].\n")
 		}
-		// Client field writes
+		// Client field accesses
+		ids := func(xs []string) string {
+			parts := make([]string, len(xs))
+			for j, x := range xs {
+				parts[j] = em.names[x]
+			}
+			return "[" + strings.Join(parts, "; ") + "]"
+		}
+		emitAcc := func(name string, l []fieldWrite) {
+			emit("Definition %s : list (list N * list N * list (list N) * list (list N)) :=\n  [", name)
+			for i, w := range l {
+				if i > 0 {
+					emit(";\n   ")
+				}
+				emit("(%s, %s, %s, %s)", em.names["Client."+w.fn], em.names[w.field], ids(w.ex), ids(w.rd))
+			}
+			emit("].\n")
+		}
 		emit("(* writes of mail.Client fields on the paths reachable from %s\n   through direct method calls (methods reached: %s): (method, field, mutexes held exclusively, mutexes read-held) *)\n",
 			strings.Join(roots, ", "), strings.Join(reached, ", "))
-		emit("Definition client_field_writes : list (list N * list N * list (list N) * list (list N)) :=\n  [")
-		for i, w := range writes {
+		emitAcc("client_field_writes", writes)
+		emit("(* the same inventory with EVERY method of Client as a root (%d methods): all assignments to Client fields after\n   construction (option closures run inside NewClient and are not methods) *)\n", len(allMethods))
+		emitAcc("client_all_writes", allWrites)
+		emit("(* reads of Client fields on the in-scope paths (same roots as client_field_writes) with the lockset at the read *)\n")
+		emitAcc("client_inscope_reads", scopeReads)
+		emit("(* package smtp: every access (read or write) to a field of smtp.Client in any of its %d methods, with the lockset\n   (each method is a root; direct c.method() calls are followed with the caller's lockset) *)\n", len(smtpMethods))
+		emitAcc("smtp_client_accesses", smtpAcc)
+		emit("(* ownership of the *smtp.Client on the DialAndSend path: uses of the variable in %s *)\n", strings.Join(ownerFns, ", "))
+		emit("Definition smtp_client_var_uses : list (list N * list N) :=\n  [")
+		for i, u := range ownerUses {
 			if i > 0 {
 				emit(";\n   ")
 			}
-			ids := func(xs []string) string {
-				parts := make([]string, len(xs))
-				for j, x := range xs {
-					parts[j] = em.names[x]
-				}
-				return "[" + strings.Join(parts, "; ") + "]"
-			}
-			emit("(%s, %s, %s, %s)", em.names["Client."+w.fn], em.names[w.field], ids(w.ex), ids(w.rd))
+			emit("(%s, %s)", em.names[u.fn], em.names[u.use])
 		}
 		emit("].\n")
 		emit("Definition client_reached_methods : N := %d.\n", len(reached))
